@@ -280,7 +280,11 @@ def run(case):
         # ---- one DataIterator object used again: after the user's transform failed once on item k the import is retried with
         #      the same object (force=True), then the object is imported a second time into another file
         ru = case.get("reuse")
-        if ru and not V and ref is not None and (tr is None or tr["kind"] in ("identity", "tag", "drop_type")):
+        # (in-place, non-idempotent transforms included when the data is text: every pass parses the lines afresh, so each
+        #  stored feature is transformed exactly once however often the object was iterated before; with the caller's own
+        #  Feature objects in a list a second pass rightly transforms the same objects again)
+        if ru and not V and ref is not None and (tr is None or tr["kind"] in ("identity", "tag", "drop_type") or
+                                                  (tr["kind"] in ("shift", "append_inplace") and ru["inner"] in ("path", "string"))):
             tr_once = dict(tr or {"kind": "identity"}, raise_once_at=ru["at"])
             r1 = call(node, {"op": "create", "h": "ru", "db": "ru.db", "src": "ru", "data": _spec(case, ru["inner"], "ru.gff"),
                              "wrap_dataiter": True, "transform": tr_once, "transform_on": "dataiter", "keep_data": "ru",
@@ -315,6 +319,8 @@ def run(case):
                         break
                 else:
                     probes["dataiterator_object_reused_after_failure_and_again"] = 1
+                    if tr is not None and tr["kind"] in ("shift", "append_inplace"):
+                        probes["dataiterator_object_reused_with_a_non_idempotent_in_place_transform"] = 1
 
         # ---- a one-shot source behind a DataIterator whose transform fails once: the caller catches it and reads on
         rs = case.get("resume")
